@@ -27,7 +27,7 @@ inductive FsOp
   deriving DecidableEq, Repr
 
 def FS.apply (fs : FS) : FsOp → FS
-  | .createTmp => { fs with tmp := .corrupt }          -- empty file: not valid JSON
+  | .createTmp => { fs with tmp := .corrupt }          -- created TRUNCATED, whatever an interrupted earlier write left there: empty file, not valid JSON
   | .writeTmpPartial => { fs with tmp := .corrupt }
   | .writeTmp t => { fs with tmp := .tokens t }
   | .rename => { main := fs.tmp, tmp := .absent }
